@@ -1,7 +1,11 @@
+\* C17 token / character level: checks Layer M against Layer P on every string (no printing)
 CONSTANTS
-  Mode = "@MODE@"
-  MaxLen = @MAXLEN@
-  MaxDev = @MAXDEV@
+  Modes = {@MODES@}
+  MaxRaw = @MAXRAW@
+  MaxGuided = @MAXGUIDED@
+  MaxDev = 1
+  MaxPlain = @MAXPLAIN@
+  MaxChars = @MAXCHARS@
 INIT Init
 NEXT Next
 INVARIANTS TypeOK MSatisfiesP
